@@ -22,8 +22,10 @@ CONSTANTS NG,        \* number of goals
           MaxSteps,  \* bound on the number of calls in the MIO modes
           Modes      \* subset of {"cov","mio","pop"}
 
-VARIABLES mode, v, last, steps
-vars == <<mode, v, last, steps>>
+VARIABLES mode, v, last, steps,
+          capn       \* the capacity announced to the MIO archive / population: initial size, then the n of
+                     \* the last shrink (MIOAlgorithm._update_parameters lowers n at any fill level)
+vars == <<mode, v, last, steps, capn>>
 
 Goal == 1..NG
 RIdx(r) == CASE r = "ok" -> 0 [] r = "exc" -> 1 [] r = "to" -> 2 [] OTHER -> 3
@@ -56,8 +58,8 @@ Init ==
   /\ steps = 0
   /\ last = NoAct
   /\ IF mode = "cov"
-     THEN \E objs \in {<<>>, [g \in Goal |-> g]} : v = View0(objs, 0)   \* DynaMOSA | MOSA
-     ELSE \E c \in 1..Cap0 : v = View0(<<>>, c)
+     THEN (\E objs \in {<<>>, [g \in Goal |-> g]} : v = View0(objs, 0)) /\ capn = 0   \* DynaMOSA | MOSA
+     ELSE \E c \in 1..Cap0 : v = View0(<<>>, c) /\ capn = c
 
 Tick == /\ steps' = (IF mode = "cov" THEN 0 ELSE steps + 1)
         /\ UNCHANGED mode
@@ -67,41 +69,41 @@ CovUpdateA == /\ mode = "cov"
               /\ \E sols \in SeqsUpTo(PoolCov, MaxLenCov) :
                    /\ v' = CovUpdate(v, sols).st
                    /\ last' = Act("update", sols, <<>>, 0)
-              /\ Tick
+              /\ Tick /\ UNCHANGED capn
 AddGoalsA == /\ mode = "cov"
              /\ \E gs \in GoalSeqs : v' = AddGoals(v, gs) /\ last' = Act("add_goals", <<>>, gs, 0)
-             /\ Tick
+             /\ Tick /\ UNCHANGED capn
 ResetA == /\ mode = "cov"
           /\ v' = Reset(v) /\ last' = Act("reset", <<>>, <<>>, 0)
-          /\ Tick
+          /\ Tick /\ UNCHANGED capn
 
 (* ---- MIOArchive ---- *)
 MioUpdateA == /\ mode = "mio"
               /\ \E sols \in SeqsUpTo(PoolMio, MaxLenMio) :
                    /\ v' = MioUpdate(v, sols).st
                    /\ last' = Act("mio_update", sols, <<>>, 0)
-              /\ Tick
+              /\ Tick /\ UNCHANGED capn
 MioShrinkA == /\ mode = "mio"
-              /\ \E n \in 1..Cap0 : v' = MioShrink(v, n) /\ last' = Act("shrink", <<>>, <<>>, n)
+              /\ \E n \in 1..Cap0 : v' = MioShrink(v, n) /\ last' = Act("shrink", <<>>, <<>>, n) /\ capn' = n
               /\ Tick
 MioGetSolA == /\ mode = "mio"
               /\ v' \in MioGetSolPosts(v) /\ last' = Act("getsol", <<>>, <<>>, 0)
-              /\ Tick
+              /\ Tick /\ UNCHANGED capn
 
 (* ---- a single MIOPopulation (goal 1), called directly with h = h(fit[1]), 0.0 included ---- *)
 PopAddA == /\ mode = "pop"
            /\ \E s \in PoolPop :
                 /\ v' = [v EXCEPT !.pops[1] = PopAdd(@, HOf(s.fit[1]), AsCov(s)).pop]
                 /\ last' = Act("pop_add", <<s>>, <<>>, 0)
-           /\ Tick
+           /\ Tick /\ UNCHANGED capn
 PopShrinkA == /\ mode = "pop"
               /\ \E n \in 1..Cap0 : /\ v' = [v EXCEPT !.pops[1] = PopShrink(@, n)]
-                                    /\ last' = Act("pop_shrink", <<>>, <<>>, n)
+                                    /\ last' = Act("pop_shrink", <<>>, <<>>, n) /\ capn' = n
               /\ Tick
 PopSampleA == /\ mode = "pop"
               /\ v' = [v EXCEPT !.pops[1] = PopSample(@)]
               /\ last' = Act("pop_sample", <<>>, <<>>, 0)
-              /\ Tick
+              /\ Tick /\ UNCHANGED capn
 
 Next == \/ CovUpdateA \/ AddGoalsA \/ ResetA
         \/ MioUpdateA \/ MioShrinkA \/ MioGetSolA
@@ -112,12 +114,12 @@ Bound == steps <= MaxSteps
 \* `last` only carries the arguments of the call into the action properties; two states that
 \* differ in `last` alone have the same future (TLC checks action properties on every
 \* generated transition, also those into states it has already seen)
-StateView == <<mode, v, steps>>
+StateView == <<mode, v, steps, capn>>
 
 (* ---- sanity of the model ---- *)
 ASolOK(s) == s = NoSol \/ (s.id > 0 /\ s.size >= 1 /\ s.covers \subseteq Goal)
 TypeOK ==
-  /\ mode \in Modes
+  /\ mode \in Modes /\ capn \in 0..Cap0
   /\ ToSet(v.objs) \subseteq Goal /\ v.unc \subseteq Goal
   /\ \A g \in Goal : ASolOK(v.cov[g])
   /\ \A g \in Goal : /\ v.pops[g].cap \in 0..Cap0 /\ v.pops[g].counter \in Nat
@@ -133,7 +135,7 @@ PopsHMatch == mode \in {"mio", "pop"} =>
 CoveredGrows      == [][CoveredGrowsP(v, v', last'.op = "reset")]_vars
 ArchivedCovers    == ArchivedCoversP(v)
 ReplaceRule       == [][ReplaceRuleP(v, v', last'.offered)]_vars
-MIOCap            == MIOCapP(v)
+MIOCap            == MIOCapP(v) /\ (mode \in {"mio", "pop"} => MIOCapNP(v, capn))
 MIOCoveredOne     == MIOCoveredOneP(v)
 MIOStaysCovered   == [][MIOStaysP(v, v')]_vars
 CoveredConsistent == CoveredConsistentP(v)
